@@ -119,6 +119,11 @@ def gj_solve(m=[1., 0.], n=3, nb=1, result=[0.0, 0.0]):
     augCol = n + nb
     nt = n + nb
 
+    # Define the result even when we return early for a singular matrix:
+    # several callers ignore the return value.
+    for i in range(n*nb):
+        result[i] = 0.0
+
     rr, rrcol, rb, rbr, kup, kupr, kleft, kleftr = declare('int', 8)
     for rrcol in range(0, colrange):
         # Partial pivoting: bring the row with the largest entry in this
